@@ -158,11 +158,13 @@ func canon(s []span) ([]span, error) {
 			if !equalPrerelease(this.min, this.max) || !equalPrerelease(this.min, next.min) || !equalPrerelease(this.min, next.max) {
 				continue
 			}
-			// We'll process the element now, so on the next outer loop, skip it.
-			i++
 			if next.rank == empty {
 				continue
 			}
+			// We'll process the element now, so mark it to be skipped by the
+			// outer loop. (It need not be the one right after this: elements
+			// that could not be merged may lie in between, and they stay.)
+			s[j].rank = empty
 			if next.max.lessThanOrEqual(this.max) {
 				// Already covered; just close the end correctly.
 				if this.max.equal(next.max) {
